@@ -131,6 +131,23 @@ Theorem C11_function_order :
 Proof. exact order_matters. Qed.
 Print Assumptions C11_function_order.
 
+(* KNOWN, unrepaired: if-statements are not translated sequentially in general.  Witness:
+   `if a > 0 then a := a - 5; b := 1; else a := a; b := 2; end if` from a = b = 3: sequential
+   execution gives a = -2, b = 1; the function the generator builds gives b = 2.  The carved-out
+   class is "if-statement whose condition reads a variable it assigns, or whose branches assign
+   in different orders" (if_wf in Proofs/C11_functions.v states the complement). *)
+Theorem C11_function_if_refuted :
+  match tr_stmts good_table [ifdep_stmt] with
+  | Ok l =>
+      val_is (exec (fun _ q => q) [ifdep_stmt] ifdep_rm) 1%positive (-2) = true /\
+      val_is (exec (fun _ q => q) [ifdep_stmt] ifdep_rm) 2%positive 1 = true /\
+      qc_is (ca_eval (fun _ q => q) (apply_assigns l sigma0 1%positive) ifdep_rc) (-2) = true /\
+      qc_is (ca_eval (fun _ q => q) (apply_assigns l sigma0 2%positive) ifdep_rc) 2 = true
+  | Err _ => False
+  end.
+Proof. exact ifdep_differs. Qed.
+Print Assumptions C11_function_if_refuted.
+
 (* Array equations (vectors, matrices, slices A[lo:hi, k], A[:, k], A[k, :], v[lo:hi], + - .*,
    scalar * array, matrix product, transpose): if the generator produces the residual graph c for
    `l = r` (exitEquation incl. the implicit transpose of a row against a column) and CasADi
